@@ -29,6 +29,7 @@ func init() {
 			{ID: "C01.R9", Floor: 1, Doc: "the framer handed to a caller owns its body: recv installs no connection-lifetime storage into it", Run: c01r9},
 			{ID: "C01.R10", Floor: 6, Doc: "an id in flight is not handed out again: the allocator claims and clears bits by compare-and-swap only (=C08.R2)", Run: c08r2},
 			{ID: "C01.R11", Floor: 1, Doc: "Conn.Read resumes a partially filled buffer where the failed attempt stopped, so frame boundaries are kept across a retried read", Run: c01r11},
+			{ID: "C01.R12", Floor: 2, Doc: "every send on callReq.resp has the alternative of the caller having left (receive on the call's timeout channel, or default)", Run: c01r12},
 		},
 	})
 }
